@@ -206,6 +206,17 @@ class AttributeValueFactory(object):
             return primitives.DateTime(value, enums.Tags.LAST_CHANGE_DATE)
         elif enum is enums.Tags.SENSITIVE:
             return primitives.Boolean(value, enums.Tags.SENSITIVE)
+        elif enum is enums.Tags.ALWAYS_SENSITIVE:
+            return primitives.Boolean(value, enums.Tags.ALWAYS_SENSITIVE)
+        elif enum is enums.Tags.EXTRACTABLE:
+            return primitives.Boolean(value, enums.Tags.EXTRACTABLE)
+        elif enum is enums.Tags.NEVER_EXTRACTABLE:
+            return primitives.Boolean(value, enums.Tags.NEVER_EXTRACTABLE)
+        elif enum is enums.Tags.ORIGINAL_CREATION_DATE:
+            return primitives.DateTime(
+                value,
+                enums.Tags.ORIGINAL_CREATION_DATE
+            )
         elif enum is enums.Tags.CUSTOM_ATTRIBUTE:
             return attributes.CustomAttribute(value)
         else:
